@@ -202,8 +202,19 @@ pub fn thread_strategy() -> impl Strategy<Value = ThreadCase> {
     (cfgs_strategy(16), 1u8..4, proptest::collection::vec((any::<u8>(), prop_oneof![Just(0u16), 1u16..50, 1u16..3000]), 0..4)).prop_map(|(cfgs, rounds, handovers)| ThreadCase { cfgs, rounds, handovers })
 }
 
+/// heavier thread cases: 4-16 evaluators over multi-combo two-player ranges on different flops
+/// (tens to hundreds of thousands of showdowns each), all drained at the same time
+pub fn heavy_thread_strategy() -> impl Strategy<Value = ThreadCase> {
+    let cfg = (flop_strategy(), range_from(crate::cards::all_combos(), 6, 24), range_from(crate::cards::all_combos(), 6, 24)).prop_map(|(flop, a, b)| {
+        let mut c = Config { flop, ranges: vec![a, b], scope: None };
+        fit_budget(&mut c, 400_000);
+        c
+    });
+    (proptest::collection::vec(cfg, 4..=16), 1u8..3, proptest::collection::vec((any::<u8>(), 1u16..3000), 0..2)).prop_map(|(cfgs, rounds, handovers)| ThreadCase { cfgs, rounds, handovers })
+}
+
 pub fn run(ctx: &mut Ctx) {
-    ctx.rule = "in-process: 1-6 live evaluators over small generated configurations (some identical, some differing only by scope), a generated schedule of (evaluator, burst) steps (single steps, short bursts, long bursts, finish-one-then-resume) followed by a round-robin drain; each evaluator's interleaved fingerprint sequence must equal, element by element, the sequence of an identically constructed evaluator iterated alone. Thread part (isolated binary, one process per case): 1-19 evaluators each drained on its own thread behind a barrier, evaluators built on the main thread and moved, ranges shared through Arc, showdowns sent back through a channel, iterators advanced on one thread and handed over to another; 1-3 rounds. Non-trivial = >= 2 evaluators with >= 1 context switch between two non-exhausted evaluators (threads: >= 2 concurrent evaluators); distinct by case.".into();
+    ctx.rule = "in-process: 1-6 live evaluators over small generated configurations (some identical, some differing only by scope), a generated schedule of (evaluator, burst) steps (single steps, short bursts, long bursts, finish-one-then-resume) followed by a round-robin drain; each evaluator's interleaved fingerprint sequence must equal, element by element, the sequence of an identically constructed evaluator iterated alone. Thread part (isolated binary, one process per case): 1-19 evaluators each drained on its own thread behind a barrier, evaluators built on the main thread and moved, ranges shared through Arc, showdowns sent back through a channel, iterators advanced on one thread and handed over to another; 1-3 rounds; stream heavy_thread_rounds: 4-16 evaluators over 6-24-combo two-player ranges on different flops (up to 400k slots each) drained simultaneously. Non-trivial = >= 2 evaluators with >= 1 context switch between two non-exhausted evaluators (threads: >= 2 concurrent evaluators); distinct by case.".into();
     ctx.assumptions = vec![
         "OS thread schedules are only sampled; the deterministic single-thread interleavings are the deciding step for shared state through statics or thread-locals".into(),
         "Send/Sync of FlopExhaustiveEvaluator, its iterator, HandRange, Showdown, HandRangeToken, MadeHand, CardPair is a compile-time by-product of building c15_threads".into(),
@@ -229,6 +240,8 @@ pub fn run(ctx: &mut Ctx) {
         ctx.run_random_brief(StreamCfg::new("thread_rounds", T_CLASSES, cases).shrink(60), thread_strategy, check_threads, |c| json!({"evaluators": c.cfgs.len(), "first": c.cfgs[0].brief(), "rounds": c.rounds, "handovers": c.handovers}));
         ctx.require_class("thread_rounds", "two_plus_concurrent_evaluators", cases / 2);
         ctx.require_class("thread_rounds", "iterator_handed_over_between_threads", cases / 3);
+        let cases = ctx.tier.pick(64, 1_600);
+        ctx.run_random_brief(StreamCfg::new("heavy_thread_rounds", T_CLASSES, cases).shrink(12), heavy_thread_strategy, check_threads, |c| json!({"evaluators": c.cfgs.len(), "first": c.cfgs[0].brief(), "rounds": c.rounds, "handovers": c.handovers}));
         let p = CHILD_PROBLEMS.load(Ordering::Relaxed);
         if p > 0 {
             ctx.unhealthy.push(format!("{} thread cases could not start their process", p));
